@@ -346,13 +346,27 @@ class EngineBase:
                 invs += inv
             st, r = self.alloc(st, "list", None, items=tuple(items))
             return st, r, invs
+        if k == "frame0":
+            # an RdfStreamFrame without rows
+            st, fr, invs = self.make_msg(st, "RdfStreamFrame", name)
+            lst = st.obj(fr).get("rows")
+            return st.heap_set(lst, "items", ()), fr, list(invs)
         if k == "frame1":
             # an RdfStreamFrame whose row list starts with one (symbolic) row followed by an opaque rest
             st, fr, invs = self.make_msg(st, "RdfStreamFrame", name)
             st, row, inv2 = self.make_msg(st, "RdfStreamRow", name + ".rows0")
             lst = st.obj(fr).get("rows")
             st = st.heap_set(lst, "items", (row,) + st.obj(lst).get("items"))
-            return st, fr, list(invs) + list(inv2)
+            known = []
+            if sort.arg == "parsed":
+                # A-IO-ENUM: a frame that came out of the wire parser; the stream-type fields of its options row hold
+                # values of the enums (other integers are C17's subject)
+                opts = st.obj(row).get("options")
+                if isinstance(opts, Ref):
+                    for fld, enum in (("physical_type", "PhysicalStreamType"), ("logical_type", "LogicalStreamType")):
+                        vals = sorted(set(self.proto["enums"][enum].values()))
+                        known.append(z3.Or(*[V.to_z3(st.obj(opts).get(fld)) == v for v in vals]))
+            return st, fr, list(invs) + list(inv2) + known
         if k == "iter":
             items = []
             invs = []
